@@ -20,6 +20,7 @@ type C20Case struct {
 	Generations int        `json:"generations"`
 	SolvedAt    []int      `json:"solved_at"` // per trial: generation reported solved, -1 = never
 	Fault       string     `json:"fault"`     // none | error | cancel
+	ErrKind     string     `json:"error_kind,omitempty"` // plain | canceled | deadline: what the evaluator's own error wraps (the run's context stays alive)
 	FaultTrial  int        `json:"fault_trial"`
 	FaultGen    int        `json:"fault_generation"`
 	Observer    bool       `json:"observer"`
@@ -43,6 +44,9 @@ func GenC20() *rapid.Generator[C20Case] {
 			c.SolvedAt = append(c.SolvedAt, s)
 		}
 		c.Fault = rapid.SampledFrom([]string{"none", "none", "error", "cancel"}).Draw(t, "fault")
+		if c.Fault == "error" {
+			c.ErrKind = rapid.SampledFrom([]string{"plain", "plain", "canceled", "deadline"}).Draw(t, "error kind")
+		}
 		if c.Fault != "none" {
 			c.FaultTrial = rapid.IntRange(0, c.Trials-1).Draw(t, "fault trial")
 			c.FaultGen = rapid.IntRange(0, c.Generations-1).Draw(t, "fault generation")
@@ -61,6 +65,25 @@ type protoEvent struct {
 func (e protoEvent) String() string { return fmt.Sprintf("%s(%d,%d)%s", e.kind, e.trial, e.gen, e.note) }
 
 var errInjected = errors.New("injected evaluator failure")
+
+// wrappedError is the evaluator's own failure; it may wrap a context error although the run's context is alive (an
+// evaluator that gives its simulation a deadline of its own)
+type wrappedError struct{ inner error }
+
+func (w wrappedError) Error() string { return "injected evaluator failure: " + w.inner.Error() }
+func (w wrappedError) Is(target error) bool {
+	return target == errInjected || errors.Is(w.inner, target)
+}
+
+func injectedError(kind string) error {
+	switch kind {
+	case "canceled":
+		return wrappedError{context.Canceled}
+	case "deadline":
+		return wrappedError{context.DeadlineExceeded}
+	}
+	return errInjected
+}
 
 type protoRecorder struct {
 	c       C20Case
@@ -126,7 +149,7 @@ func (r *protoRecorder) GenerationEvaluate(_ context.Context, pop *genetics.Popu
 	if r.c.Fault != "none" && t == r.c.FaultTrial && g == r.c.FaultGen {
 		r.faulted = true
 		if r.c.Fault == "error" {
-			return errInjected
+			return injectedError(r.c.ErrKind)
 		}
 		r.cancel()
 	}
@@ -289,8 +312,9 @@ func CheckC20(c C20Case, rec *Rec) error {
 		switch c.Fault {
 		case "error":
 			if !errors.Is(err, errInjected) {
-				return fmt.Errorf("the evaluator's error was not returned to the caller: got %v", err)
+				return fmt.Errorf("the evaluator's error (%s) was not returned to the caller: got %v", c.ErrKind, err)
 			}
+			rec.Class("evaluator error kind:" + c.ErrKind)
 		case "cancel":
 			lastPlanned := c.FaultTrial == c.Trials-1 && (c.FaultGen == c.Generations-1 || c.SolvedAt[c.FaultTrial] == c.FaultGen)
 			if lastPlanned {
